@@ -556,7 +556,7 @@ fn run_cmp(v: &[u64]) {
 
 pub fn harnesses() -> Vec<H> {
     vec![
-        H { name: "flatstack_sequence", props: &["C03", "C09"], nargs: 8, pre: pre_fs, doms: doms_fs, run: run_fs, panic_ok: false,
+        H { name: "flatstack_sequence", props: &["C03", "C09", "C13"], nargs: 8, pre: pre_fs, doms: doms_fs, run: run_fs, panic_ok: false,
             bound: "FlatStack over SliceRegion<MirrorRegion<u8>>/Vec, ConsecutiveIndexPairs<OwnedRegion<u8>>/IndexOptimized and /IndexList: 0..4 items from a 4-value pool built by copy / extend / from_iter (exact-size, filtered and chained iterators); get, iter, cloned iterator, size_hint, into_iter, reserve, clone, clone_from into destinations holding 0/1/2/4/6 unrelated items (then an identical further copy), clear; out-of-bounds probe", kani: false },
         H { name: "index_containers", props: &["C05", "C19", "C08", "C10", "C18", "C01", "C02", "C03", "C13"], nargs: 7, pre: pre_ix, doms: doms_ix, run: run_ix, panic_ok: false,
             bound: "IndexOptimized, IndexList<Vec<u32>,Vec<u64>>, Vec<usize>: all sequences of length 0..4 over the 12-value transition alphabet {0,1,2,3,4,5,6,8,u32::MAX,u32::MAX+1,2^63,usize::MAX} by push, one extend, two-three extend batches, or a push followed by extends; index/len/iter/clone/reserve/clear/with_capacity; heap bytes equal the documented cost rule; a fully strided sequence allocates nothing, also after reserve", kani: false },
@@ -567,9 +567,11 @@ pub fn harnesses() -> Vec<H> {
         H { name: "dense_owned_forms", props: &["C12", "C20", "C01"], nargs: 8, pre: pre_dof, doms: doms_dof, run: run_dof, panic_ok: false,
             bound: "ConsecutiveIndexPairs<OwnedRegion<u8>> and ColumnsRegion<OwnedRegion<u8>>: three items (rows of 1..3 cells) with lengths over {0,1,3,9,40}, each pushed as a slice, as an owned Vec of exact capacity or as an owned Vec with 64 bytes of spare capacity; optionally after an earlier life and clear: indices 0,1,2 and every row re-read after every push", kani: false },
         H { name: "value_kinds", props: &["C01", "C14"], nargs: 3, pre: pre_vk, doms: doms_vk, run: run_vk, panic_ok: false,
-            bound: "MirrorRegion<f64> / <f32>, OptionRegion<MirrorRegion<f64>>, SliceRegion<MirrorRegion<f64>> over 7 bit patterns (+0, -0, quiet NaN, NaN with payload and sign, 1.5, inf, smallest subnormal) compared by bits; tuple regions of arity 1 and 3 and a slice of triples: read item, into_owned, borrow_as and clone_onto over 7 prior targets (incl. the opposite zero / other field values / longer and shorter vectors)", kani: false },
+            bound: "MirrorRegion<f64> / <f32>, OptionRegion<MirrorRegion<f64>>, SliceRegion<MirrorRegion<f64>> over 7 bit patterns (+0, -0, quiet NaN, NaN with payload and sign, 1.5, inf, smallest subnormal) compared by bits; tuple regions of arity 1 and 3 and a slice of triples; zero-sized elements as owned vectors into a populated OwnedRegion<()> and by value into a Vec<()> region: read item, into_owned, borrow_as and clone_onto over 7 prior targets (incl. the opposite zero / other field values / longer and shorter vectors)", kani: false },
         H { name: "heap_composites", props: &["C18"], nargs: 3, pre: pre_hc, doms: doms_hc, run: run_hc, panic_ok: false,
-            bound: "tuple regions whose fields own several allocations ((slice of strings, string), (result of string / bytes, byte), a tuple in a tuple) with 0..3 items: summed used bytes equal those of the fields kept separately / are at least the payload; Vec<[u8;32]> and Vec<(u32,u64)> regions: used bytes at least size_of::<T>() per element", kani: false },
+            bound: "tuple regions whose fields own several allocations ((slice of strings, string), (result of string / bytes, byte), a tuple in a tuple) and a result region with a heap-less Ok side, with 0..3 items: summed used bytes equal those of the fields kept separately / are at least the payload; Vec<[u8;32]> and Vec<(u32,u64)> regions: used bytes at least size_of::<T>() per element", kani: false },
+        H { name: "ref_forms", props: &["C20", "C01", "C02"], nargs: 5, pre: pre_rf, doms: doms_rf, run: run_rf, panic_ok: false,
+            bound: "ResultRegion<StringRegion, StringRegion>, OptionRegion<StringRegion>, TupleABRegion<StringRegion, OwnedRegion<u8>>: three items of a 4-value pool, each step in the reference form (&Result, &Option, &tuple) or the owned form (all 8 masks), against an owned-form twin: same index, same stored bytes after every step, every issued index re-read", kani: false },
         H { name: "read_item_ordering", props: &["C15"], nargs: 11, pre: pre_cmp, doms: doms_cmp, run: run_cmp, panic_ok: false,
             bound: "SliceRegion<MirrorRegion<u8>>: triples of u8 vectors of length 0..2 (native: bytes over {0,1,255}), each side region-backed from two different regions or owned-borrowed: ==, !=, <, <=, >, >=, partial_cmp, cmp, max, min equal those of the Vecs; reflexive, antisymmetric, transitive", kani: false },
     ]
@@ -645,14 +647,15 @@ fn run_dof(v: &[u64]) {
 // Floating-point values whose `==` is not identity (signed zeros, NaN payloads) through MirrorRegion, and tuple regions of
 // odd arity (1 and 3 fields): the read item and each of its owned conversions describe exactly the pushed value
 // (compared by bits), whatever the `clone_onto` target held before.
-// args: kind (0 f64, 1 f32, 2 option<f64>, 3 slice<f64>, 4 one-tuple, 5 triple, 6 slice of triples), x (value selector), t (prior target selector)
+// args: kind (0 f64, 1 f32, 2 option<f64>, 3 slice<f64>, 4 one-tuple, 5 triple, 7 OwnedRegion<()> owned vectors, 8 Vec<()> by value, 9 slice of triples), x (value selector), t (prior target selector)
 const F64S: [u64; 7] = [0x0000_0000_0000_0000, 0x8000_0000_0000_0000, 0x7ff8_0000_0000_0000, 0xfff0_0000_0000_0001, 0x3ff8_0000_0000_0000, 0x7ff0_0000_0000_0000, 0x0000_0000_0000_0001];
 fn pre_vk(v: &[u64]) -> bool {
-    v[0] < 7 && v[1] < 7 && v[2] < 7
+    v[0] < 10 && v[1] < 7 && v[2] < 7
 }
 fn doms_vk() -> Vec<Vec<u64>> {
-    vec![range(7), range(7), range(7)]
+    vec![range(10), range(7), range(7)]
 }
+
 fn run_vk(v: &[u64]) {
     use flatcontainer::impls::tuple::{TupleABCRegion, TupleARegion};
     use flatcontainer::OptionRegion;
@@ -730,6 +733,26 @@ fn run_vk(v: &[u64]) {
             it.clone_onto(&mut t);
             vassert!(t == x, "VF:values.tuple.clone_onto_differs");
         }
+        7 => {
+            // zero-sized elements in the owned-vector form, into an empty and into a populated region
+            crate::section("VF:values.zst.push_panicked");
+            let mut r = <OwnedRegion<()>>::default();
+            let a = r.push(vec![(); v[1] as usize % 4]);
+            let b = r.push(vec![(); v[2] as usize % 3 + 1]);
+            let c = r.push([(), ()].as_slice());
+            vassert!(r.index(a).len() == v[1] as usize % 4 && r.index(b).len() == v[2] as usize % 3 + 1 && r.index(c).len() == 2, "VF:values.zst.read_differs");
+        }
+        8 => {
+            // a plain vector of zero-sized elements as a region, pushed by value and by reference
+            crate::section("VF:values.zst.push_panicked");
+            let mut r = <Vec<()>>::default();
+            let mut idx = Vec::new();
+            for k in 0..(v[1] as usize % 4 + 1) {
+                idx.push(if (k + v[2] as usize) % 2 == 0 { <Vec<()> as Push<()>>::push(&mut r, ()) } else { <Vec<()> as Push<&()>>::push(&mut r, &()) });
+            }
+            let _last: &() = Region::index(&r, idx.len() - 1);
+            vassert!(idx.as_slice().iter().enumerate().all(|(k, i)| *i == k) && r.len() == idx.len(), "VF:values.zst.read_differs");
+        }
         _ => {
             type E = TupleABCRegion<MirrorRegion<u8>, MirrorRegion<u8>, MirrorRegion<u8>>;
             let x: Vec<(u8, u8, u8)> = (0..(v[1] as u8 % 4)).map(|k| (k, k + 10, k + 20)).collect();
@@ -753,10 +776,10 @@ fn run_vk(v: &[u64]) {
 // larger than its alignment.
 // args: kind (0..4), n (items 0..3), w (payload selector)
 fn pre_hc(v: &[u64]) -> bool {
-    v[0] < 5 && v[1] < 4 && v[2] < 3
+    v[0] < 7 && v[1] < 4 && v[2] < 3
 }
 fn doms_hc() -> Vec<Vec<u64>> {
-    vec![range(5), range(4), range(3)]
+    vec![range(7), range(4), range(3)]
 }
 fn run_hc(v: &[u64]) {
     use flatcontainer::impls::tuple::TupleABRegion;
@@ -813,12 +836,112 @@ fn run_hc(v: &[u64]) {
                 vassert!(h.0 >= 32 * (k + 1) && h.1 >= h.0, "VF:heap.composite.vec_used_below_element_bytes");
             }
         }
+        5 => {
+            // a result region whose Ok side owns no heap at all (zero-sized region type) and whose Err side does
+            let mut t = <ResultRegion<MirrorRegion<u8>, StringRegion>>::default();
+            let mut payload = 0usize;
+            for k in 0..n {
+                let w = words[(k + v[2] as usize) % 4];
+                let item: Result<u8, &str> = if k % 2 == 0 { Err(w) } else { Ok(k as u8) };
+                if k % 2 == 0 {
+                    payload += w.len();
+                }
+                let _ = t.push(item);
+                let ta = sums(collect_heap(|cb| t.heap_size(cb)));
+                vassert!(ta.0 >= payload, "VF:heap.composite.used_below_payload");
+            }
+        }
+        6 => {
+            // the index container of a FlatStack contributes what it really holds: never more used bytes than capacity,
+            // also when dense indices are absorbed without any heap
+            let mut fs = <FlatStack<ConsecutiveIndexPairs<StringRegion>, IndexOptimized>>::default();
+            let mut fl = <FlatStack<MirrorRegion<usize>, IndexList<Vec<u32>, Vec<u64>>>>::default();
+            fl.reserve(4);
+            for k in 0..(n + 2) {
+                fs.copy(words[(k + v[2] as usize) % 4]);
+                fl.copy(k * 3);
+                vassert!(collect_heap(|cb| fs.heap_size(cb)).iter().all(|p| p.0 <= p.1), "VF:heap.composite.flatstack_used_exceeds_capacity");
+                vassert!(collect_heap(|cb| fl.heap_size(cb)).iter().all(|p| p.0 <= p.1), "VF:heap.composite.flatstack_used_exceeds_capacity");
+            }
+        }
         _ => {
             let mut r = <Vec<(u32, u64)>>::default();
             for k in 0..n {
                 let _ = <Vec<(u32, u64)> as Push<(u32, u64)>>::push(&mut r, (k as u32, v[2]));
                 let h = sums(collect_heap(|cb| Region::heap_size(&r, cb)));
                 vassert!(h.0 >= std::mem::size_of::<(u32, u64)>() * (k + 1) && h.1 >= h.0, "VF:heap.composite.vec_used_below_element_bytes");
+            }
+        }
+    }
+}
+
+// ---------------------------------------------------------------------------------------------------- reference forms of fan-out regions over stateful children
+// `&Result<T, E>`, `&Option<T>` and `&(A, B)` against the owned forms on a twin: same index, same stored bytes after every
+// step, same reads — with children that store data and hand out position-dependent indices on BOTH sides.
+// args: kind (0 result, 1 option, 2 tuple), k0 k1 k2 (pool items), mask (which steps use the reference form)
+fn pre_rf(v: &[u64]) -> bool {
+    v[0] < 3 && all_le(v, 1, 4, 3) && v[4] < 8
+}
+fn doms_rf() -> Vec<Vec<u64>> {
+    vec![range(3), range(4), range(4), range(4), range(8)]
+}
+fn run_rf(v: &[u64]) {
+    use flatcontainer::impls::tuple::TupleABRegion;
+    use flatcontainer::{OptionRegion, ResultRegion};
+    let used = |p: Vec<(usize, usize)>| -> usize { p.iter().map(|x| x.0).sum() };
+    let by_ref = |step: usize| (v[4] >> step) & 1 == 1;
+    match v[0] {
+        0 => {
+            type R = ResultRegion<StringRegion, StringRegion>;
+            let pool: [Result<String, String>; 4] = [Ok("ab".into()), Err("xyz".into()), Err(String::new()), Ok(String::new())];
+            let (mut r, mut t) = (R::default(), R::default());
+            let mut issued = Vec::new();
+            for step in 0..3 {
+                let x = &pool[v[1 + step] as usize];
+                let i = if by_ref(step) { r.push(x) } else { r.push(x.as_ref().map(|s| s.as_str()).map_err(|s| s.as_str())) };
+                let j = t.push(x.as_ref().map(|s| s.as_str()).map_err(|s| s.as_str()));
+                vassert!(i == j, "VF:ref_forms.index_differs");
+                vassert!(used(collect_heap(|cb| r.heap_size(cb))) == used(collect_heap(|cb| t.heap_size(cb))), "VF:ref_forms.stored_bytes_differ");
+                issued.push((i, x.clone()));
+                for (i, w) in &issued {
+                    let got: Result<String, String> = r.index(*i).map(|s| s.to_string()).map_err(|s| s.to_string());
+                    vassert!(&got == w, "VF:ref_forms.read_differs");
+                }
+            }
+        }
+        1 => {
+            type R = OptionRegion<StringRegion>;
+            let pool: [Option<String>; 4] = [Some("ab".into()), None, Some(String::new()), Some("hello".into())];
+            let (mut r, mut t) = (R::default(), R::default());
+            let mut issued = Vec::new();
+            for step in 0..3 {
+                let x = &pool[v[1 + step] as usize];
+                let i = if by_ref(step) { r.push(x) } else { r.push(x.as_deref()) };
+                let j = t.push(x.as_deref());
+                vassert!(i == j, "VF:ref_forms.index_differs");
+                vassert!(used(collect_heap(|cb| r.heap_size(cb))) == used(collect_heap(|cb| t.heap_size(cb))), "VF:ref_forms.stored_bytes_differ");
+                issued.push((i, x.clone()));
+                for (i, w) in &issued {
+                    vassert!(r.index(*i).map(|s| s.to_string()) == *w, "VF:ref_forms.read_differs");
+                }
+            }
+        }
+        _ => {
+            type R = TupleABRegion<StringRegion, OwnedRegion<u8>>;
+            let pool: [(String, Vec<u8>); 4] = [("ab".into(), vec![1]), (String::new(), vec![]), ("xyz".into(), vec![2, 3]), ("q".into(), vec![4, 5, 6])];
+            let (mut r, mut t) = (R::default(), R::default());
+            let mut issued = Vec::new();
+            for step in 0..3 {
+                let x = &pool[v[1 + step] as usize];
+                let i = if by_ref(step) { r.push(x) } else { r.push((x.0.as_str(), x.1.as_slice())) };
+                let j = t.push((x.0.as_str(), x.1.as_slice()));
+                vassert!(i == j, "VF:ref_forms.index_differs");
+                vassert!(used(collect_heap(|cb| r.heap_size(cb))) == used(collect_heap(|cb| t.heap_size(cb))), "VF:ref_forms.stored_bytes_differ");
+                issued.push((i, x.clone()));
+                for (i, w) in &issued {
+                    let got = r.index(*i);
+                    vassert!(got.0 == w.0 && got.1 == w.1.as_slice(), "VF:ref_forms.read_differs");
+                }
             }
         }
     }
